@@ -70,16 +70,6 @@ Definition ires_of (o : outcome image) : ires :=
   | OutOfFuel => IPanic
   end.
 
-(* the pixels a data buffer in the 1 / 3 / 4 channel layout stands for (specification) *)
-Fixpoint spec_pixels (fuel : nat) (c : N) (data : list N) : list rgba :=
-  match fuel with
-  | O => []
-  | S f =>
-      if c =? 4 then match data with r :: g :: b :: a :: rest => (r, g, b, a) :: spec_pixels f c rest | _ => [] end
-      else if c =? 3 then match data with r :: g :: b :: rest => (r, g, b, 255) :: spec_pixels f c rest | _ => [] end
-      else match data with v :: rest => (v, v, v, 255) :: spec_pixels f c rest | _ => [] end
-  end.
-
 (* ------------------------------------------------------------- faces *)
 
 Inductive fres := FOk (f : face) | FErr | FPanic.
@@ -133,18 +123,8 @@ Definition cres_eqb (a b : cres) : bool :=
 Definition cres_of (o : outcome (list key)) : cres :=
   match o with Ok k => COk k | Err _ => CErr | _ => CPanic end.
 
-(* KeyChord::deserialize: a string, then FromStr *)
-Definition chord_de (lower : str -> str) (j : json) : cres :=
-  match j with
-  | JStr s => cres_of (parse_chord lower s)
-  | _ => CErr
-  end.
-
-Definition face_de (oracle : str -> option rgba) (j : json) : fres :=
-  match j with
-  | JStr s => fres_of (face_parse oracle s)
-  | _ => FErr
-  end.
+Definition chord_de (lower : str -> str) (j : json) : cres := cres_of (chord_de_json lower j).
+Definition face_de (oracle : str -> option rgba) (j : json) : fres := fres_of (face_de_json oracle j).
 
 (* ------------------------------------------------------------- views *)
 
@@ -196,12 +176,12 @@ Definition c19_check (c : c19_case) : bool * bool :=
        && (if (N.of_nat (length data) =? ch * h * w) && channels_ok ch
               && opt_eqb str_eqb (match jget doc (s2l "data") with Some (JStr s) => Some s | _ => None end)
                                  (Some (rfc4648 data))
-           then ires_eqb impl (IOk h w (spec_pixels (length data) ch data))
+           then ires_eqb impl (IOk h w (pixels_of ch data))
            else true))
   | CFace f printed reparsed ser back =>
       (str_eqb (face_print f) printed
        && fres_eqb (fres_of (face_parse (fun _ => None) printed)) reparsed
-       && json_eqb ser (JStr printed)
+       && json_eqb ser (face_ser f)
        && fres_eqb (face_de (fun _ => None) ser) back,
        fres_eqb reparsed (FOk f) && fres_eqb back (FOk f))
   | CFaceParse s tbl impl =>
@@ -212,7 +192,7 @@ Definition c19_check (c : c19_case) : bool * bool :=
   | CSizeDe doc impl =>
       (sres_eqb (sres_of (de_size doc)) impl, negb (sres_eqb impl SPanic))
   | CChord ks tbl printed ser back =>
-      (str_eqb (print_chord ks) printed && json_eqb ser (JStr printed)
+      (str_eqb (print_chord ks) printed && json_eqb ser (chord_ser ks)
        && cres_eqb (chord_de (table_lower tbl) ser) back,
        cres_eqb back (COk ks))
   | CChordDe doc tbl impl =>
